@@ -1114,13 +1114,21 @@ where
 		w.w2n_client().clone()
 	};
 
+	// (every step below works on the account that was active when the update started: the
+	// active account can be switched while it runs, and log ids are numbered per account)
+
 	// Step 1: Update outputs and transactions purely based on UTXO state
 	if let Some(ref s) = status_send_channel {
 		let _ = s.send(StatusMessage::UpdatingOutputs(
 			"Updating outputs from node".to_owned(),
 		));
 	}
-	let mut result = update_outputs(wallet_inst.clone(), keychain_mask, update_all)?;
+	let mut result = update_outputs_of(
+		wallet_inst.clone(),
+		keychain_mask,
+		&parent_key_id,
+		update_all,
+	)?;
 
 	if !result {
 		if let Some(ref s) = status_send_channel {
@@ -1142,7 +1150,7 @@ where
 		wallet_lock!(wallet_inst, w);
 		updater::retrieve_txs(&mut **w, None, None, None, Some(&parent_key_id), true)?
 	};
-	result = update_txs_via_kernel(wallet_inst.clone(), keychain_mask, &mut txs)?;
+	result = update_txs_via_kernel(wallet_inst.clone(), keychain_mask, &parent_key_id, &mut txs)?;
 	if !result {
 		if let Some(ref s) = status_send_channel {
 			let _ = s.send(StatusMessage::UpdateWarning(
@@ -1221,7 +1229,6 @@ where
 		if let Some(e) = tx.ttl_cutoff_height {
 			if tip.0 >= e {
 				wallet_lock!(wallet_inst, w);
-				let parent_key_id = w.parent_key_id();
 				tx::cancel_tx(&mut **w, keychain_mask, &parent_key_id, Some(tx.id), None)?;
 			}
 		}
@@ -1328,9 +1335,27 @@ where
 	C: NodeClient + 'a,
 	K: Keychain + 'a,
 {
+	let parent_key_id = {
+		wallet_lock!(wallet_inst, w);
+		w.parent_key_id()
+	};
+	update_outputs_of(wallet_inst, keychain_mask, &parent_key_id, update_all)
+}
+
+/// As `update_outputs`, for a given account
+fn update_outputs_of<'a, L, C, K>(
+	wallet_inst: Arc<Mutex<Box<dyn WalletInst<'a, L, C, K>>>>,
+	keychain_mask: Option<&SecretKey>,
+	parent_key_id: &Identifier,
+	update_all: bool,
+) -> Result<bool, Error>
+where
+	L: WalletLCProvider<'a, C, K>,
+	C: NodeClient + 'a,
+	K: Keychain + 'a,
+{
 	wallet_lock!(wallet_inst, w);
-	let parent_key_id = w.parent_key_id();
-	match updater::refresh_outputs(&mut **w, keychain_mask, &parent_key_id, update_all) {
+	match updater::refresh_outputs(&mut **w, keychain_mask, parent_key_id, update_all) {
 		Ok(_) => Ok(true),
 		Err(e) => {
 			if let Error::InvalidKeychainMask = e {
@@ -1372,6 +1397,7 @@ where
 fn update_txs_via_kernel<'a, L, C, K>(
 	wallet_inst: Arc<Mutex<Box<dyn WalletInst<'a, L, C, K>>>>,
 	keychain_mask: Option<&SecretKey>,
+	parent_key_id: &Identifier,
 	txs: &mut Vec<TxLogEntry>,
 ) -> Result<bool, Error>
 where
@@ -1379,11 +1405,6 @@ where
 	C: NodeClient + 'a,
 	K: Keychain + 'a,
 {
-	let parent_key_id = {
-		wallet_lock!(wallet_inst, w);
-		w.parent_key_id()
-	};
-
 	let mut client = {
 		wallet_lock!(wallet_inst, w);
 		w.w2n_client().clone()
@@ -1413,7 +1434,7 @@ where
 				let mut batch = w.batch(keychain_mask)?;
 				tx.confirmed = true;
 				tx.update_confirmation_ts();
-				batch.save_tx_log_entry(tx.clone(), &parent_key_id)?;
+				batch.save_tx_log_entry(tx.clone(), parent_key_id)?;
 				batch.commit()?;
 			}
 		} else {
